@@ -359,7 +359,9 @@ def shapes(width, depth):
     for s in gen(depth):
         if s not in res: res.append(s)
     # member names and strings that need escaping (member names go through the same string printer)
-    res += [{'q"': 7}, {'b\\': None}, {'n\n': 'k'}, {'\u00e9': 7, 'k': 'a"b'}, ['a"b', 'c\\d'], {'k': {'q"': [7]}}]
+    deep = 7
+    for _ in range(30): deep = [deep]
+    res += [deep, {'q"': 7}, {'b\\': None}, {'n\n': 'k'}, {'\u00e9': 7, 'k': 'a"b'}, ['a"b', 'c\\d'], {'k': {'q"': [7]}}]
     return res
 
 
@@ -484,8 +486,15 @@ def print_structure(ctx):
         for b in r['bodies']: run.functions[b] = True
         for s in r['samples']: fam.add_sample(s)
         for c in r['cands']:
-            if c['role'] not in seen: seen[c['role']] = Candidate(fam.name, c['role'], c['text'], c['model'], unmodelled=c['unmodelled'])
-    fam.candidates = list(seen.values())
+            seen.setdefault(c['role'], []).append(c)
+    # one candidate per role; among the shapes of a role the one that reproduces natively is reported (deepest first)
+    def depth_of(x): return 1 + max([depth_of(y) for y in (x.values() if isinstance(x, dict) else x)] or [0]) if isinstance(x, (list, dict)) else 0
+    alts = {}
+    fam.candidates = []
+    for role, cs in seen.items():
+        cs.sort(key=lambda c: -depth_of(c['model'].get('value')))
+        fam.candidates.append(Candidate(fam.name, role, cs[0]['text'], cs[0]['model'], unmodelled=cs[0]['unmodelled']))
+        alts[role] = cs[:24]
     from .cli import run_jawk, show
     # translator self-check: for a sample of shapes the text the MIR execution produced (recorded by the workers) is
     # compared with what the real binary prints
@@ -498,17 +507,21 @@ def print_structure(ctx):
             checked += 1
     run.notes.append(f'printer self-check: {checked} (shape, style) texts produced by the MIR execution compared with the real binary: all agree')
     for c in fam.candidates:
-        v = c.model['value']; sty = c.model.get('style', 'OneLine')
-        nval = c.model.get('N', 7)
-        def subst(x):
-            if isinstance(x, bool) or x is None: return x
-            if isinstance(x, int): return nval
-            if isinstance(x, list): return [subst(y) for y in x]
-            if isinstance(x, dict): return {k: subst(y) for k, y in x.items()}
-            return x
-        v = subst(v)
-        argv = ['--style', {'OneLine': 'one-line', 'Consise': 'consise', 'Pretty': 'pretty'}[sty]]
-        r = run_jawk(ctx, argv, json.dumps(v).encode())
-        exp = {'OneLine': json.dumps(v), 'Consise': json.dumps(v, separators=(',', ':')), 'Pretty': json.dumps(v, indent=2)}[sty] + '\n'
-        c.replay = {'argv': argv, 'stdin': json.dumps(v), 'expected': exp, 'actual': show(r['stdout'])}
-        c.status = 'reproduced' if show(r['stdout']) != exp else ('unit' if c.role == 'structure:number' else 'not-reproduced')
+      for alt in alts.get(c.role, [None]):
+          if alt is not None: c.model = alt['model']; c.text = alt['text']
+          if 'value' not in c.model: break
+          v = c.model['value']; sty = c.model.get('style', 'OneLine')
+          nval = c.model.get('N', 7)
+          def subst(x):
+              if isinstance(x, bool) or x is None: return x
+              if isinstance(x, int): return nval
+              if isinstance(x, list): return [subst(y) for y in x]
+              if isinstance(x, dict): return {k: subst(y) for k, y in x.items()}
+              return x
+          v = subst(v)
+          argv = ['--style', {'OneLine': 'one-line', 'Consise': 'consise', 'Pretty': 'pretty'}[sty]]
+          r = run_jawk(ctx, argv, json.dumps(v).encode())
+          exp = {'OneLine': json.dumps(v), 'Consise': json.dumps(v, separators=(',', ':')), 'Pretty': json.dumps(v, indent=2)}[sty] + '\n'
+          c.replay = {'argv': argv, 'stdin': json.dumps(v), 'expected': exp, 'actual': show(r['stdout'])}
+          c.status = 'reproduced' if show(r['stdout']) != exp else ('unit' if c.role == 'structure:number' else 'not-reproduced')
+          if c.status == 'reproduced': break
